@@ -1,0 +1,1 @@
+//! Hooks for property C32 (empty unless needed).
